@@ -39,8 +39,8 @@ def main():
     if rc != 0:
         print("patch does not apply:", out)
         return 2
-    rct, outt = run("cargo test --offline 2>&1 | grep -E 'test result|FAILED|error' ", wt)
-    tests_ok = "FAILED" not in outt and "error" not in outt and outt.count("test result: ok") >= 3
+    rct, outt = run("cargo test --offline 2>&1 | grep -E 'test result|FAILED|^error' ", wt)
+    tests_ok = "FAILED" not in outt and not re.search(r"^error", outt, re.M) and outt.count("test result: ok") >= 3
     ran.append("cargo test --offline with change: " + " / ".join(l.strip()[:60] for l in outt.strip().splitlines()))
     rc1, out1 = run("cargo run --offline --release", demo)
     ran.append("demo with change: exit %d" % rc1)
